@@ -171,6 +171,8 @@ def allowed_sizes(it, compress):
         return {it['n']}
     if k == 'align':
         return None     # depends on the offset: (-offset) mod n
+    if k == 'raw':
+        return {0}
     raise KeyError(k)
 
 
